@@ -354,6 +354,18 @@ class Engine:
                 try:
                     val = ast.literal_eval(expr)
                 except Exception:
+                    if isinstance(expr, ast.Dict) and all(isinstance(k, ast.Constant) for k in expr.keys) and all(isinstance(v, (ast.Name, ast.Constant)) for v in expr.values):
+                        # a module-level table of names / literals, read as an immutable value (its mutation is a C17 inventory matter)
+                        saved, self.module = self.module, mp
+                        try:
+                            items = []
+                            for k, v in zip(expr.keys, expr.values):
+                                vv = self.global_name(v.id, st) if isinstance(v, ast.Name) else self.lit(v.value)
+                                vt, _ = self.term(vv, st)
+                                items.append(V.Pair(self.lit(k.value), vt))
+                        finally:
+                            self.module = saved
+                        return V.Dict(mklist(*items))
                     raise OutOfSubset(f"module constant {nm} is not a literal")
                 return self.lit(val)
         if name in BUILTIN_EXC_PARENT or name in ('object',):
@@ -1445,6 +1457,8 @@ class Engine:
         return self.havoc_call(f"value {f.sexpr()[:40]}", st)
 
     def call_repo_function(self, key, st, a, kw):
+        if self.contract is not None and key in getattr(self.contract, 'callee_models', {}):
+            return self.contract.callee_models[key](self, st, a, kw)      # a callee this contract abstracts (stated as an assumption of the contract)
         if self.contract is not None and key in getattr(self.contract, 'inline', ()):
             return self.inline(key, st, a, kw)      # the contract under proof treats this private helper as part of the unit
         c = self.registry.get(key)
@@ -1827,7 +1841,7 @@ class Engine:
             q = self.fork(s1, z3.Not(t))
             if q is not None:
                 out += self.block(sm.orelse, q)
-        if getattr(self.contract, 'merge_ifs', False) and getattr(self, 'loop_depth', 0) > 0:
+        if getattr(self.contract, 'merge_ifs', False) and (getattr(self, 'loop_depth', 0) > 0 or getattr(self.contract, 'merge_ifs', False) == 'always'):
             falls = [x[0] for x in out if x[1] == 'fall']
             if len(falls) > 1:
                 m = self.merge_states(falls)
